@@ -31,7 +31,7 @@ CHECKS = {
    ref="5/C05"),
  "C14": dict(
    technique="runtime monitoring: before/after snapshot oracle around requests that the shadow model says must be refused (canonical observation with handles and every reverse lookup, search answers, hooked dump of all stores and indices), then the corrected request against a twin store replayed without the failure",
-   text="On stores reached by seeded histories, up to 10 invalid requests per store from a catalogue of 25 (unknown resource/annotation/dataset/key/data, out-of-range and inverted offsets, complex selector with an invalid last member, nested complex selector (after a valid member, and first or alone), missing target - each combined with data new to the store -, valid target with unknown set/key/data handles after new data, duplicate annotation/resource/dataset/data ids, and an already known target selection - listed after a longer one with the same begin - combined with an unknown data id or as member of a complex selector with an invalid last member) and one batch per store (annotate_from_iter, annotate_from_file with an item that fails while annotating and with an item that is malformed JSON-wise, ADD query with a fixed id, ADD query whose TARGET carries a relative OFFSET that does not fit every row) with the invalid item first, in the middle or last: the snapshot after the refusal must equal the snapshot before, and the corrected request must leave the store equal to a twin that never saw the failure. Held for the faults observed except the recorded findings (annotate() is not atomic).",
+   text="On stores reached by seeded histories, up to 10 invalid requests per store from a catalogue of 26 (unknown resource/annotation/dataset/key/data, out-of-range and inverted offsets, complex selector with an invalid last member, nested complex selector (after a valid member, and first or alone), missing target - each combined with data new to the store -, valid target with unknown set/key/data handles after new data, duplicate annotation/resource/dataset/data ids, and an already known target selection - listed after a longer one with the same begin - combined with an unknown data id or as member of a complex selector with an invalid last member) and one batch per store (annotate_from_iter, annotate_from_file with an item that fails while annotating and with an item that is malformed JSON-wise, ADD query with a fixed id, ADD query whose TARGET carries a relative OFFSET that does not fit every row) with the invalid item first, in the middle or last: the snapshot after the refusal must equal the snapshot before, and the corrected request must leave the store equal to a twin that never saw the failure. Held for the faults observed except the recorded findings (annotate() is not atomic).",
    note="Trusted: obs.rs observation, c12::answers, the dump hook. Requests where model and library disagree on refusal are C03/C04's business and are not judged here; with_annotations() (consumes the store) is not exercised.",
    ref="5/C14"),
  "C16": dict(
